@@ -19,7 +19,7 @@ ALLOWED_AXIOMS = {'propext', 'Classical.choice', 'Quot.sound'}
 TRUSTED_BASE = [
     'Lean 4.33.0 kernel (leanchecker re-check in the thorough tier)',
     'axioms: at most propext, Classical.choice, Quot.sound (audited per theorem on every run); no sorry/native_decide/own axioms',
-    'extractor /verif/extract (go/packages, go/ast, go/ssa + VTA): constants, select inventory, field accesses, state-function return graph, and the translation of the Go boolean decisions into BExp (leaves = Go source text; the environment that interprets the leaves is chosen in the tie theorem statements, the control structure around the conditions is written out there by hand)',
+    'extractor /verif/extract (go/packages, go/ast, go/ssa + VTA): constants, select inventory, field accesses, state-function return graph, and the translation of the Go boolean decisions into BExp (leaves = Go source text; the environment that interprets the leaves is chosen in the tie theorem statements, the control structure around the conditions is written out there by hand), and the path translation of the message-handling state functions (extract/paths.go: structured control flow only — if / switch / type switch / select / for / return / continue / break / defer / one level of closure inlining; effects are statement-level calls by callee text; which guard a model input determines and what a callee means is fixed in Model/PathSem.lean and trusted as the reading of the Go source text)',
     'correspondence harness /verif/harness (Go) and Lean driver: same inputs to both sides, faithful canonicalisation',
     'Go semantics as transcribed in CoreBGP/Model/Go.lean (fixed-width wrap-around, slice bounds, append/copy)',
     'hand-written Lean model CoreBGP/Model/* is tied to /repo only by the regenerated Gen/* facts and by the differential / trace-inclusion runs',
